@@ -415,7 +415,7 @@ func runCase(t *testing.T, r *evid.Run, c *tcase) {
 					fail("looked-up-secret-not-cached", fmt.Sprintf("%q was fetched successfully but the cache does not hold it", nc.Name), map[string]any{"cache": string(cache.Last())})
 				}
 				before := svc.NumRequests()
-				if err := st.Refresh(context.Background()); err != nil {
+				if err := st.Refresh(context.Background()); err != nil && !c.CacheFails { // (with a cache that cannot be written a poll may report that, whether or not it had something to install)
 					fail("refresh-fails", err.Error(), nil)
 				}
 				polled := false
